@@ -714,3 +714,52 @@ def plan_C15(p, tier, seed):
              CustomUnit("x", factory_unit, ("contracts.message", "c15_set_attribute_bits", (5, 3), "x")))
     p.canary("overflow-not-translated", "pyubx2.ubxmessage", "        except (OverflowError,) as err:", "        except (ZeroDivisionError,) as err:",
              CustomUnit("x", inst.kwargs_unit, (1, bytes.fromhex("0272"), "anydisc")))
+
+
+def plan_C14(p, tier, seed):
+    from .units import factory_unit
+    from . import configdb, ground, bounded, instance as inst
+    p.explanation = (
+        "config_set / config_del / config_poll are verified for a *symbolic* item list (symbolic length, item k given by "
+        "uninterpreted functions of k; keys as names or as IDs): the item loop is cut by the invariant lis == ENC(items, k), "
+        "where ENC is the specified byte layout (for each item, in order, the 32-bit little-endian key ID and - for set - the "
+        "value at the width of the key's type), the type of an item being decided by a finite case split over the database's "
+        "types and, for unknown IDs, the size codes; post: payload == 4-byte header + ENC(items, len(items)), class/ID/mode of "
+        "the CFG-VAL* message; more than 64 items is refused. cfgkey2name / cfgname2key are verified against their contracts "
+        "once per database entry (1242 keys) plus the symbolic unknown-ID / unknown-name cases. Ground: every key's declared "
+        "width equals its ID's size code, IDs unique, name<->ID lookups agree. Parsing: the key/value loop of "
+        "_set_attribute_cfgval is verified (invariant, termination) inside the CFG-VALGET / CFG-VALSET constructor instances.")
+    for fn in ("config_set", "config_del", "config_poll"):
+        for form in ("id", "name"):
+            lab = f"{M}{fn}[{form} keys]"
+            p.add(CustomUnit(lab, factory_unit, ("contracts.message", "c14_config", (fn, form), lab), props=("C14",), cost=40))
+    db, _ = configdb.cfgdb()
+    n = len(db)
+    step = 60
+    for lo in range(0, n, step):
+        p.add(CustomUnit(f"cfg-lookups[{lo}:{min(lo + step, n)}]", configdb.lookup_chunk_unit, (lo, min(lo + step, n)),
+                         props=("C14",), cost=10))
+    p.add(CustomUnit("cfg-lookups[residual]", configdb.lookup_residual_unit, (), props=("C14",), cost=20))
+    p.add(GroundUnit("ground.C14/configdb", ground.configdb_rules, (), props=("C14",)))
+    p.add(GroundUnit("ground.C14/name-id-agreement", configdb.name_id_agreement, (), props=("C14",)))
+    for mode, key in ((0, b"\x06\x8b"), (1, b"\x06\x8a")):
+        u = CustomUnit(f"init[{inst.MODES[mode]}:{key.hex()}]", inst.init_unit, (mode, key), props=("C14",), cost=100)
+        u.select = r"(_set_attribute_cfgval/loop1:|/raises:|call-pre:cfgkey2name)"
+        p.add(u)
+        p.replayers[u.name] = inst.replay_instance
+    p.add(BoundedUnit("bounded.C14/config-build-parse", bounded.config_roundtrip, (tier, seed), props=("C14",)))
+    p.instances = {"database_keys": n}
+    p.exhaustive = True
+    p.min_obligations = 5000
+    p.trusted_base += ["symbolic item lists: items are uninterpreted functions of the index; the ENC layout specification "
+                       "(pvc/configdb.py) is the statement being proved, not derived from the code",
+                       "constructor contract of UBXMessage.__init__ (used modularly by config_*; proved per instance)"]
+    p.canary("max-items-65", "pyubx2.ubxmessage", "        if num > 64:\n            raise UBXMessageError(\n                f\"Number of configuration tuples",
+             "        if num > 65:\n            raise UBXMessageError(\n                f\"Number of configuration tuples",
+             CustomUnit("x", factory_unit, ("contracts.message", "c14_config", ("config_set", "id"), "x")))
+    p.canary("key-as-u16", "pyubx2.ubxmessage", "            keyb = val2bytes(kid, U4)\n", "            keyb = val2bytes(kid, U2)\n",
+             CustomUnit("x", factory_unit, ("contracts.message", "c14_config", ("config_set", "id"), "x")))
+    p.canary("value-before-key", "pyubx2.ubxmessage", "            lis = lis + keyb + valb\n", "            lis = lis + valb + keyb\n",
+             CustomUnit("x", factory_unit, ("contracts.message", "c14_config", ("config_set", "id"), "x")))
+    p.canary("poll-header-order", "pyubx2.ubxmessage", "        payload = version + layer + position\n", "        payload = layer + version + position\n",
+             CustomUnit("x", factory_unit, ("contracts.message", "c14_config", ("config_poll", "id"), "x")))
